@@ -1028,14 +1028,24 @@ pub fn plans_for(prop: &str, thorough: bool) -> Vec<Plan> {
         }
         "C08r" => {}
         "C09" => {
-            let mut cases = gen::f_seq(if thorough { 3 } else { 2 }, false);
+            // quick: every 97th two-statement sequence; thorough: EVERY two-statement sequence and every 499th three-statement
+            // sequence (all 1.2 M of them x ~1000 range pairs is out of reach; the bound is stated, not a wall-clock cap)
+            let mut cases = gen::f_seq(2, false);
             if !thorough {
-                // every third program keeps the quick tier small; the thorough tier takes them all
                 cases = cases.into_iter().enumerate().filter(|(i, _)| i % 97 == 0).map(|(_, c)| c).collect();
+            } else {
+                cases.extend(gen::f_seq(3, false).into_iter().enumerate().filter(|(i, _)| i % 499 == 0).map(|(_, c)| c));
             }
-            cases.extend(only_dials(stmt.clone(), &[Dial::Core]).into_iter().filter(|c| c.text.contains("end") || c.text.contains('{') || c.text.contains(';')));
+            let blocks: Vec<Case> = only_dials(stmt.clone(), &[Dial::Core]).into_iter().filter(|c| c.text.contains("end") || c.text.contains('{') || c.text.contains(';')).collect();
+            cases.extend(blocks.clone());
+            // the same behind another statement: only then can a range that starts after byte 0 contain the whole block statement
+            for c in blocks {
+                let mut d = c.clone();
+                d.text = format!("local p = 1\n{}", c.text);
+                cases.push(d);
+            }
             plans.push(Plan {
-                name: "F-SEQ + block statements x every pair of range points x width classes",
+                name: "F-SEQ + block statements (alone and behind another statement) x every pair of range points x width classes",
                 cases,
                 cfgs: cross(false, |b| vec![b, Cfg { cs: 3, ..b }]),
                 widths: Widths::Classes,
@@ -1147,6 +1157,15 @@ pub fn plans_for(prop: &str, thorough: bool) -> Vec<Plan> {
                 widths: if thorough { Widths::Classes } else { Widths::Wide },
                 ranges: Ranges::None,
                 oracles: O_SORT | O_CENSUS | O_PARSE,
+                u_cap: 400,
+            });
+            plans.push(Plan {
+                name: "ignore regions opening and closing at every pair of positions of three require groups x sort on",
+                cases: gen::f_ign_requires(),
+                cfgs: cross(false, |b| vec![Cfg { sort: true, ..b }]),
+                widths: Widths::Wide,
+                ranges: Ranges::None,
+                oracles: O_SORT | O_PARSE,
                 u_cap: 400,
             });
             plans.push(Plan {
